@@ -436,8 +436,10 @@ class Verdict(object):
         }
         if not ev['coverage']['samples']:
             ev['coverage']['samples'] = ['(no sample recorded)']
-        os.makedirs(os.path.join(ROOT, 'evidence'), exist_ok=True)
-        with open(os.path.join(ROOT, 'evidence', self.pid + '.json'), 'w') as f:
+        # runs against a deliberately broken tree (tools/with_patch.sh) must not overwrite the evidence of the unchanged tree
+        evdir = os.environ.get('VERIF_EVIDENCE_DIR') or os.path.join(ROOT, 'evidence')
+        os.makedirs(evdir, exist_ok=True)
+        with open(os.path.join(evdir, self.pid + '.json'), 'w') as f:
             json.dump(ev, f, indent=1, default=str)
         for l in lines:
             print(l)
